@@ -160,7 +160,7 @@ func checkFilter(arg string, f rule.FilterSpec, cmp bool) string {
 		return fmt.Sprintf("operator read as %q, the text at that position is %q (argument %q)", f.Comparator, longest, arg)
 	}
 	val := rest[len(f.Comparator):]
-	if f.RHS != val && f.RHS != strings.TrimSpace(val) {
+	if f.RHS != val {
 		return fmt.Sprintf("value %q is not the complete text %q after the operator (argument %q)", f.RHS, val, arg)
 	}
 	if f.RHS == "" {
